@@ -35,7 +35,8 @@ class Topology:
                  socks_kwargs=None, respond_at="complete", origin_tls_ok=True, responder=None):
         self.ct = ct
         self.framing = framing
-        self.h2cfg = h2cfg or {}
+        self.h2cfg = dict(h2cfg or {})
+        self.h2cfg.setdefault("max_streams", 100)
         self.origins: dict = {}
         self.respond_at = respond_at
         self.origin_tls_ok = origin_tls_ok
